@@ -270,6 +270,13 @@ pub fn witness_c09frame() -> bool {
         eprintln!("c09frame: an oversized frame was not reported as an error");
         bad = true;
     }
+    // ... at once, as soon as the prefix is complete and however little above the limit (never "need more data")
+    let over = (super::MAX_MESSAGE_SIZE as u32 + 1).to_be_bytes();
+    let mut big = BytesMut::from(&over[..]);
+    if !matches!(SyncCodec.decode(&mut big), Err(_)) {
+        eprintln!("c09frame: a length prefix above the limit is not rejected as soon as it is complete");
+        bad = true;
+    }
     bad
 }
 
@@ -309,8 +316,9 @@ pub fn witness_c10steps() -> bool {
             store.close_replica(namespace);
             SyncHandle::spawn(store, None, name.to_string())
         };
-        // ---------------- (a) declined request
-        {
+        // ---------------- (a) declined request; the dialer closes its sending half at once, or keeps it open (the acceptor's
+        //                  end must not depend on the peer closing its stream: round-8 seed r8_c10_b)
+        for keep_open in [false, true] {
             // a message carrying one signed entry
             let mut empty = Store::memory();
             let init_of_empty = empty.new_replica(secret.clone()).unwrap().sync_initial_message().unwrap();
@@ -326,13 +334,15 @@ pub fn witness_c10steps() -> bool {
             let (dr2, dw) = tokio::io::split(d);
             let mut dw = FramedWrite::new(dw, SyncCodec);
             dw.send(Message::Init { namespace, message: with_entries }).await.unwrap();
-            dw.get_mut().shutdown().await.unwrap();
+            if !keep_open {
+                dw.get_mut().shutdown().await.unwrap();
+            }
             let mut state = BobState::new(dialer_id);
-            let res = tokio::time::timeout(std::time::Duration::from_secs(10), state.run(bw, br, bob.clone(), |_ns, _peer| std::future::ready(AcceptOutcome::Reject(AbortReason::AlreadySyncing)))).await;
+            let res = tokio::time::timeout(std::time::Duration::from_secs(if keep_open { 4 } else { 10 }), state.run(bw, br, bob.clone(), |_ns, _peer| std::future::ready(AcceptOutcome::Reject(AbortReason::AlreadySyncing)))).await;
             match res {
                 Ok(Err(AcceptError::Abort { reason: AbortReason::AlreadySyncing, .. })) => {}
                 other => {
-                    eprintln!("c10steps(a): a declined request was not reported as Abort: {:?}", other.map(|r| r.map(|_| ())));
+                    eprintln!("c10steps(a): a declined request was not reported as Abort (dialer keeps its stream open: {keep_open}; Err(Elapsed) = the acceptor is still waiting): {:?}", other.map(|r| r.map(|_| ())));
                     bad = true;
                 }
             }
